@@ -3,6 +3,7 @@ import Driver.Glyph
 import Driver.Matrix
 import Driver.Composite
 import Driver.CompRegion
+import Driver.Trap
 /-! `pixdrv <domain>`: reads requests on stdin, writes one reply line per request. -/
 
 partial def loop (h : IO.FS.Stream) (out : IO.FS.Stream) (f : String → String) : IO Unit := do
@@ -20,4 +21,5 @@ def main (args : List String) : IO UInt32 := do
   | ["matrix"] => loop stdin stdout Driver.Matrix.handle; return 0
   | ["composite"] => loop stdin stdout Driver.Composite.handle; return 0
   | ["compregion"] => loop stdin stdout Driver.CompRegion.handle; return 0
+  | ["trap"] => loop stdin stdout Driver.Trap.handle; return 0
   | _ => IO.eprintln "usage: pixdrv <domain>"; return 2
